@@ -437,6 +437,32 @@ impl<'tcx> Cx<'tcx> {
             blocks.push(o(vec![("cleanup", J::B(data.is_cleanup)), ("stmts", J::A(stmts)), ("term", t)]));
         }
         v.push(("blocks", J::A(blocks)));
+        // promoted constants: list the constant operands each promoted body is made of
+        let mut proms = vec![];
+        for pb in tcx.promoted_mir(def).iter() {
+            let mut cs = vec![];
+            for data in pb.basic_blocks.iter() {
+                for st in &data.statements {
+                    if let StatementKind::Assign(b) = &st.kind {
+                        let (_, rv) = &**b;
+                        let mut ops: Vec<&Operand<'tcx>> = vec![];
+                        match rv {
+                            Rvalue::Use(op, ..) | Rvalue::Cast(_, op, _) | Rvalue::UnaryOp(_, op) | Rvalue::Repeat(op, _) => ops.push(op),
+                            Rvalue::BinaryOp(_, b) => { ops.push(&b.0); ops.push(&b.1); }
+                            Rvalue::Aggregate(_, xs) => { for x in xs.iter() { ops.push(x); } }
+                            _ => {}
+                        }
+                        for op in ops {
+                            if let Operand::Constant(c) = op {
+                                cs.push(self.constant(c));
+                            }
+                        }
+                    }
+                }
+            }
+            proms.push(J::A(cs));
+        }
+        v.push(("promoted", J::A(proms)));
         // closure captures
         if matches!(kind, DefKind::Closure) {
             let caps: Vec<J> = tcx
@@ -508,8 +534,9 @@ impl<'tcx> Cx<'tcx> {
         let mut promoted = false;
         match c.const_ {
             mir::Const::Unevaluated(u, _) => {
-                if u.promoted.is_some() {
+                if let Some(pi) = u.promoted {
                     promoted = true;
+                    v.push(("promoted_idx", J::I(pi.as_usize() as i128)));
                 } else {
                     defp = s(ty::print::with_no_trimmed_paths!(tcx.def_path_str_with_args(u.def, u.args)));
                 }
